@@ -26,18 +26,20 @@ class Durable:
 
     def __init__(self):
         self.count = 0
-        self.crash_at = None      # native int, or None
+        self.crash_at = None      # int / SInt: number of the operation that does not complete
+        self.armed = False
         self.log = []
-        self.hook = None          # optional callable(kind, detail) -> None, before the op
 
     def op(self, kind, detail=''):
-        '''Returns True if the operation completes, raises Crash if the process dies in it.'''
+        '''Returns True if the operation completes, False if the process dies in it.'''
+        if not self.armed:
+            return True
         n = self.count
         self.count += 1
         self.log.append((kind, detail))
-        if self.hook:
-            self.hook(kind, detail)
-        if self.crash_at is not None and n == self.crash_at:
+        if self.crash_at is not None and bool(self.crash_at == n):
+            self.armed = False
+            self.log.append(('CRASH', n))
             return False
         return True
 
@@ -276,6 +278,70 @@ def _register_memstore():
     _REGISTERED = True
 
 
+_NATIVE_REGISTERED = False
+
+
+def _register_native_crash():
+    '''Native mode: real LevelDB and real files, with the same durable-operation counter in
+    front of them (batch commit / put / file write), so crash scenarios replay natively.'''
+    global _NATIVE_REGISTERED
+    if _NATIVE_REGISTERED:
+        return
+    import electrumx.server.storage as storage
+
+    class _WB:
+        def __init__(self, real, durable, name):
+            self.real, self.durable, self.name = real, durable, name
+
+        def __enter__(self):
+            return self.real.__enter__()
+
+        def __exit__(self, et, ev, tb):
+            if et is None and not self.durable.op('batch', self.name):
+                self.real.__exit__(Crash, Crash(), None)     # discard the transaction
+                raise Crash()
+            return self.real.__exit__(et, ev, tb)
+
+    class Crashleveldb(storage.LevelDB):
+        def open(self, name, create):
+            super().open(name, create)
+            durable = CURRENT.durable
+            real_put, real_wb = self.put, self.write_batch
+
+            def put(k, v):
+                if not durable.op('put', name):
+                    raise Crash()
+                return real_put(k, v)
+            self.put = put
+            self.write_batch = lambda: _WB(real_wb(), durable, name)
+
+    Crashleveldb.__module__ = storage.__name__
+    storage.Crashleveldb = Crashleveldb
+    _NATIVE_REGISTERED = True
+
+
+class _NativeFile:
+    def __init__(self, f, durable, name):
+        self.f, self.durable, self.name = f, durable, name
+
+    def __enter__(self):
+        return self
+
+    def __exit__(self, *a):
+        self.f.close()
+        return False
+
+    def __getattr__(self, k):
+        return getattr(self.f, k)
+
+    def write(self, b):
+        if not self.durable.op('write', self.name):
+            self.f.write(b'\xee' * len(b))
+            self.f.flush()
+            raise Crash()
+        return self.f.write(b)
+
+
 BASE_ENV = dict(DAEMON_URL='http://u:p@localhost:8332/', COIN='BitcoinSV', NET='regtest',
                 PEER_DISCOVERY='OFF', SERVICES='', REPORT_SERVICES='')
 
@@ -304,7 +370,7 @@ class World:
         from electrumx.server.env import Env
         e = dict(BASE_ENV)
         e['DB_DIRECTORY'] = self.dir if self.native else '/'
-        e['DB_ENGINE'] = 'leveldb' if self.native else 'memstore'
+        e['DB_ENGINE'] = 'crashleveldb' if self.native else 'memstore'
         e['REORG_LIMIT'] = str(self.reorg_limit) if isinstance(self.reorg_limit, int) else '5'
         e.update(self.env_extra)
         saved = dict(os.environ)
@@ -323,6 +389,14 @@ class World:
         global CURRENT
         CURRENT = self
         if self.native:
+            _register_native_crash()
+            import electrumx.lib.util as util
+            if not hasattr(util, '_verif_real_open_file'):
+                util._verif_real_open_file = util.open_file
+
+            def open_file(filename, create=False):
+                return _NativeFile(util._verif_real_open_file(filename, create), CURRENT.durable, filename)
+            util.open_file = open_file
             return
         _register_memstore()
         import electrumx.lib.util as util
